@@ -1,6 +1,6 @@
 ----------------------------- MODULE IsaAvr_Gen -----------------------------
 EXTENDS IsaAvr
-CONSTANTS Cpu, K, Salt
+CONSTANTS Cpu, K, Salt, Step
 VARIABLES form, ops, pc
 AddrMax == AddrMaxOf(Cpu)
 BranchPCs == BranchPCsOf(Cpu)
